@@ -6,6 +6,7 @@ import (
 	"fmt"
 	"go/token"
 	"go/types"
+	"sort"
 	"strings"
 
 	"golang.org/x/tools/go/ssa"
@@ -136,30 +137,47 @@ func runFlushDrain(c *Ctx, r *RuleRun) {
 			fv, _ := loadedField(lc.Call.Args[0])
 			return fv == flushC
 		}
+		// the loop: blocks on a cycle through the select; exit edges lead from it to the block that closes db.closed
+		var sel *ssa.BasicBlock
+		eachInstr(f, func(ins ssa.Instruction) {
+			if s2, ok := ins.(*ssa.Select); ok {
+				sel = s2.Block()
+			}
+		})
+		if sel == nil {
+			r.Undecided(fn, "loop", p.Pos(f.Pos()), "the flusher has no select loop")
+			continue
+		}
+		inL := map[*ssa.BasicBlock]bool{}
+		for _, b := range f.Blocks {
+			if reaches(b, sel) && reaches(sel, b) {
+				inL[b] = true
+			}
+		}
 		n := 0
-		for _, pred := range exitBlock.Preds {
-			if !inLoop(pred) {
+		for _, b := range f.Blocks {
+			if !inL[b] {
 				continue
 			}
-			n++
-			last := pred.Instrs[len(pred.Instrs)-1]
-			ok := false
-			// the fact may be established by the branch at the end of pred itself
-			if iff, isIf := last.(*ssa.If); isIf {
-				for si, s := range pred.Succs {
-					if s == exitBlock {
-						cm := canonCond(iff.Cond, si == 0)
-						if emptyQueue(cm) || emptyQueue(cm.Flip()) {
-							ok = true
-						}
+			for si, sb := range b.Succs {
+				if inL[sb] || !reaches(sb, exitBlock) {
+					continue
+				}
+				n++
+				last := b.Instrs[len(b.Instrs)-1]
+				ok := false
+				if iff, isIf := last.(*ssa.If); isIf {
+					cm := canonCond(iff.Cond, si == 0)
+					if emptyQueue(cm) || emptyQueue(cm.Flip()) {
+						ok = true
 					}
 				}
+				if !ok && hasFact(last, emptyQueue) {
+					ok = true
+				}
+				r.Check(ok, fn, "exit only with an empty queue", p.Pos(instrPos(last)), "this way out of the loop is taken only when len(flushC) == 0",
+					"the flusher can stop while rotated memtables are still queued: Close returns with their wal files left behind, and the next Open replays them over newer data")
 			}
-			if !ok && hasFact(last, emptyQueue) {
-				ok = true
-			}
-			r.Check(ok, fn, "exit only with an empty queue", p.Pos(instrPos(last)), "this way out of the loop is taken only when len(flushC) == 0",
-				"the flusher can stop while rotated memtables are still queued: Close returns with their wal files left behind, and the next Open replays them over newer data")
 		}
 		if n == 0 {
 			r.Undecided(fn, "loop exits", p.Pos(f.Pos()), "the flusher's loop exits were not found")
@@ -171,7 +189,7 @@ func runOracleAccum(c *Ctx, r *RuleRun) {
 	p := c.P
 	ver := p.Field("types", "Entry", "Version")
 	for _, name := range []string{"memtable", "levelManager"} {
-		f := p.Fn("", name, "recover")
+		f := p.FnOr("", name, "recover")
 		if f == nil {
 			r.Undecided("-", name+".recover", "", "anchor not found")
 			continue
@@ -238,6 +256,25 @@ func runOracleAccum(c *Ctx, r *RuleRun) {
 		}
 		if n == 0 {
 			r.Undecided(fn, "max accumulator", p.Pos(f.Pos()), "no loop-carried maximum on the way to the result")
+		}
+		// every iteration of an outer accumulator loop reaches the inner one (no file is skipped)
+		for _, outer := range phis {
+			for _, inner := range phis {
+				ho, hi := outer.Block(), inner.Block()
+				if outer == inner || ho == hi || !inLoop(ho) || !inLoop(hi) || !ho.Dominates(hi) || !reaches(hi, ho) || !dependsOnVersion(inner) {
+					continue
+				}
+				last := ho.Instrs[len(ho.Instrs)-1]
+				q := PathQuery{P: p, Fn: f, Starts: []ssa.Instruction{last}, Avoid: func(i ssa.Instruction) bool { return i.Block() == hi },
+					EdgeOK: func(b *ssa.BasicBlock, i int) bool { return !(b == ho && !reaches(b.Succs[i], ho)) },
+					Target: func(i ssa.Instruction) bool { return i == ho.Instrs[0] }}
+				w := q.FindPath()
+				if w != nil {
+					r.Viol(fn, "every file contributes", p.Pos(instrPos(inner)), "an iteration over the files can skip the loop that accumulates the versions of its entries: the recovered maximum misses whole files and nextTs restarts below stored versions", p.describePath(w)...)
+				} else {
+					r.Hold(fn, "every file contributes", p.Pos(instrPos(inner)), "every iteration of the outer loop reaches the accumulation over its entries")
+				}
+			}
 		}
 	}
 }
@@ -330,7 +367,7 @@ func init() {
 func runCmpL0All(c *Ctx, r *RuleRun) {
 	p := c.P
 	la := c.Locks()
-	fetch := p.Fn("", "levelManager", "fetch")
+	fetch := p.FnOr("", "levelManager", "fetch")
 	cmpKeys := p.Fn("types", "", "CompareKeys")
 	parseKey := p.Fn("types", "", "ParseKey")
 	if fetch == nil || cmpKeys == nil {
@@ -558,5 +595,464 @@ func runLiveCloseReq(c *Ctx, r *RuleRun) {
 		if n == 0 {
 			r.Hold(fn, "close request remembered", p.Pos(instrPos(sel)), "the closeC arm always leaves the loop")
 		}
+	}
+}
+
+func init() {
+	register(&Rule{ID: "CMP.OUTLEVEL", Engine: "E-SIB", Min: 3,
+		Desc: "every table writer uses one level for its output: the level given to table.Build, the level whose next free index names the file, the level given to the durable writer and the level list the handle is appended to are the same expression",
+		Run:  runCmpOutLevel})
+	register(&Rule{ID: "CMP.SCANALL", Engine: "E-PATH", Min: 1,
+		Desc: "the selection of overlapping tables examines every table of the level: the walk over the level list is left only when the list is exhausted (level lists are ordered by age, not by key, so an early exit misses overlapping tables)",
+		Run:  runCmpScanAll})
+	register(&Rule{ID: "SNAP.OWN", Engine: "E-PATH", Min: 1,
+		Desc: "a key found in the transaction's own write buffer is answered from the buffer (value, or not-found for a delete): no path leads from the buffer hit to the store lookup",
+		Run:  runSnapOwn})
+}
+
+func runCmpOutLevel(c *Ctx, r *RuleRun) {
+	p := c.P
+	d := c.Dur()
+	build := p.Fn("table", "", "Build")
+	levels := p.Field("", "levelManager", "levels")
+	idxField := p.Field("", "tableHandle", "levelIdx")
+	if build == nil || levels == nil || idxField == nil {
+		r.Undecided("-", "table.Build", "", "anchors not found")
+		return
+	}
+	o := nfOpts{p: p, depth: 6}
+	for _, site := range p.CallersOf(build) {
+		call, ok := site.(*ssa.Call)
+		if !ok || strings.HasSuffix(p.Fset.Position(call.Pos()).Filename, "_test.go") {
+			continue
+		}
+		f := call.Parent()
+		if f.Pkg != p.SSAPkg[p.ModPath] {
+			continue
+		}
+		want := o.nf(call.Call.Args[2])
+		got := map[string]string{"table.Build": want}
+		// the index that names the file: stores to tableHandle.levelIdx depend on a call with a level argument
+		for _, st := range storesToField(f, idxField) {
+			p.dependsOn(st.Val, func(x ssa.Value) bool {
+				if cl, ok := x.(*ssa.Call); ok && len(p.Callees(cl)) == 1 && p.recvIs(p.Callees(cl)[0], "levelManager") && len(cl.Call.Args) == 2 {
+					if bt, ok := cl.Call.Args[1].Type().Underlying().(*types.Basic); ok && bt.Kind() == types.Int {
+						got["next free index of level"] = o.nf(cl.Call.Args[1])
+						return true
+					}
+				}
+				return false
+			})
+		}
+		// the durable writer
+		eachInstr(f, func(ins ssa.Instruction) {
+			cl, ok := ins.(*ssa.Call)
+			if !ok {
+				return
+			}
+			cs := p.Callees(cl)
+			if len(cl.Call.Args) >= 3 && len(cs) == 1 && d.tablePub.FuncSuccess(cs[0]) {
+				got["durable writer"] = o.nf(cl.Call.Args[1])
+			}
+			// list insert: lm.levels[L].PushBack
+			if obj := p.ExtCallee(cl); obj != nil && funcIs(obj, "container/list", "List", "PushBack") {
+				if ld, ok := cl.Call.Args[0].(*ssa.UnOp); ok {
+					if ia, ok := ld.X.(*ssa.IndexAddr); ok {
+						if fv, _ := loadedField(ia.X); fv == levels {
+							got["level list"] = o.nf(ia.Index)
+						}
+					}
+				}
+			}
+		})
+		bad := ""
+		for k, v := range got {
+			if v != want {
+				bad = fmt.Sprintf("%s uses level %s but table.Build is given level %s", k, v, want)
+			}
+		}
+		if len(got) < 4 {
+			r.Undecided(p.FnName(f), "output level", p.Pos(instrPos(call)), fmt.Sprintf("only %d of the 4 uses of the output level were found: %v", len(got), got))
+			continue
+		}
+		r.Check(bad == "", p.FnName(f), "output level", p.Pos(instrPos(call)), "Build, file index, writer and level list all use level "+want,
+			bad+": the output is named after (or registered in) another level, a later rename can overwrite a live table of that level")
+	}
+}
+
+func runCmpScanAll(c *Ctx, r *RuleRun) {
+	p := c.P
+	la := c.Locks()
+	n := 0
+	seen := map[*ssa.Function]bool{}
+	for _, cf := range compactors(c) {
+		for g := range la.roleReach([]*ssa.Function{cf}) {
+			if seen[g] || g == cf {
+				continue
+			}
+			seen[g] = true
+			// a selection function: returns a slice of list elements and walks a list with Next()
+			res := g.Signature.Results()
+			if res.Len() != 1 {
+				continue
+			}
+			sl, ok := res.At(0).Type().Underlying().(*types.Slice)
+			if !ok || !strings.Contains(sl.Elem().String(), "container/list.Element") {
+				continue
+			}
+			var next *ssa.Call
+			eachInstr(g, func(ins ssa.Instruction) {
+				if cl, ok := ins.(*ssa.Call); ok {
+					if obj := p.ExtCallee(cl); obj != nil && funcIs(obj, "container/list", "Element", "Next") && inLoop(cl.Block()) {
+						next = cl
+					}
+				}
+			})
+			if next == nil {
+				continue
+			}
+			n++
+			// the loop: blocks on a cycle through next's block; the header is the block testing the element against nil
+			inL := map[*ssa.BasicBlock]bool{}
+			for _, b := range g.Blocks {
+				if reaches(b, next.Block()) && reaches(next.Block(), b) {
+					inL[b] = true
+				}
+			}
+			bad := ""
+			for b := range inL {
+				for _, s := range b.Succs {
+					if inL[s] {
+						continue
+					}
+					// leaving the loop: allowed only on the "element == nil" edge
+					iff, isIf := b.Instrs[len(b.Instrs)-1].(*ssa.If)
+					okExit := false
+					if isIf {
+						if v, _, isNilTest := nilTestCond(iff.Cond); isNilTest && strings.Contains(v.Type().String(), "list.Element") {
+							okExit = true
+						}
+					}
+					if !okExit {
+						bad = p.Pos(instrPos(b.Instrs[len(b.Instrs)-1]))
+					}
+				}
+			}
+			r.Check(bad == "", p.FnName(g), "walks the whole level", p.Pos(instrPos(next)), "the walk ends only when the list is exhausted",
+				"the walk over the level list can stop early (at "+bad+"): tables of a level are ordered by age, not by key, so an overlapping table behind a non-overlapping one is left out of the merge and later re-appended as newer than the data that replaced it")
+		}
+	}
+	if n == 0 {
+		r.Undecided("-", "overlap selection", "", "no function selecting list elements for a compaction was found")
+	}
+}
+
+func reaches(from, to *ssa.BasicBlock) bool {
+	seen := map[*ssa.BasicBlock]bool{}
+	stack := []*ssa.BasicBlock{from}
+	for len(stack) > 0 {
+		x := stack[len(stack)-1]
+		stack = stack[:len(stack)-1]
+		if x == to {
+			return true
+		}
+		if seen[x] {
+			continue
+		}
+		seen[x] = true
+		stack = append(stack, x.Succs...)
+	}
+	return false
+}
+
+func runSnapOwn(c *Ctx, r *RuleRun) {
+	a := c.Txn()
+	if !a.ok(r) {
+		return
+	}
+	p := c.P
+	f := a.get
+	fn := p.FnName(f)
+	readsMem := p.loadsField(a.fMemtable)
+	var lookups []ssa.Instruction
+	eachInstr(f, func(ins ssa.Instruction) {
+		if call, ok := ins.(*ssa.Call); ok && p.SiteMayReach(call, readsMem) {
+			lookups = append(lookups, call)
+		}
+	})
+	n := 0
+	for _, b := range f.Blocks {
+		if len(b.Instrs) == 0 {
+			continue
+		}
+		iff, ok := b.Instrs[len(b.Instrs)-1].(*ssa.If)
+		if !ok || !isLookupOK(iff.Cond) {
+			continue
+		}
+		lk := iff.Cond.(*ssa.Extract).Tuple.(*ssa.Lookup)
+		if !isLoadOfField(lk.X, a.fPending) {
+			continue
+		}
+		n++
+		hit := b.Succs[0]
+		if len(hit.Instrs) == 0 {
+			continue
+		}
+		isLookup := func(i ssa.Instruction) bool {
+			for _, l := range lookups {
+				if i == l {
+					return true
+				}
+			}
+			return false
+		}
+		q := PathQuery{P: p, Fn: f, Starts: []ssa.Instruction{iff}, EdgeOK: func(bb *ssa.BasicBlock, i int) bool { return !(bb == b && i == 1) }, Target: isLookup}
+		w := q.FindPath()
+		if w != nil {
+			r.Viol(fn, "buffer hit answered from the buffer", p.Pos(instrPos(iff)), "a key found in the transaction's own write buffer can still be looked up in the store (e.g. when the buffered entry is a delete): the transaction reads the committed value instead of its own write", p.describePath(w)...)
+		} else {
+			r.Hold(fn, "buffer hit answered from the buffer", p.Pos(instrPos(iff)), "no path from the hit to the store lookup")
+		}
+	}
+	if n == 0 {
+		r.Viol(fn, "own writes consulted", p.Pos(f.Pos()), "Txn.Get never consults the transaction's own write buffer")
+	}
+}
+
+func init() {
+	register(&Rule{ID: "TABLE.WHOLE", Engine: "E-DEP", Min: 3,
+		Desc: "compactions and recovery read a table as a whole: the block handle they fetch/decode is Index.DataBlock (all data blocks), never the handle of a single index entry",
+		Run:  runTableWhole})
+	register(&Rule{ID: "KEY.SPLIT", Engine: "E-SIB", Min: 2, Spec: true,
+		Desc: "ParseKey and ParseTs split a stored key at the same place (the last '@'), the inverse of KeyWithTs",
+		Run:  runKeySplit})
+	register(&Rule{ID: "IDX.FRESH", Engine: "E-DEP", Min: 1,
+		Desc: "the index that names a new table file is one above the largest index in use in that level (computed from the handles' levelIdx), so no live file is ever overwritten",
+		Run:  runIdxFresh})
+	register(&Rule{ID: "CMP.RMORDER", Engine: "E-SIB", Min: 1,
+		Desc: "the L0 inputs of a compaction are selected - and therefore unlinked and deleted - oldest first: after a crash between two removals the surviving L0 tables are the newest ones and cannot shadow the merged output",
+		Run:  runCmpRmOrder})
+}
+
+func fieldIs(v ssa.Value, fv *types.Var) bool {
+	if fv == nil {
+		return false
+	}
+	if f, _ := loadedField(v); f == fv {
+		return true
+	}
+	if fa, ok := v.(*ssa.FieldAddr); ok {
+		f, _ := fieldOfAddr(fa)
+		return f == fv
+	}
+	return false
+}
+
+func runTableWhole(c *Ctx, r *RuleRun) {
+	p := c.P
+	fetch := p.FnOr("", "levelManager", "fetch")
+	whole := p.Field("table", "Index", "DataBlock")
+	single := p.Field("table", "IndexEntry", "DataHandle")
+	rec := p.FnOr("", "levelManager", "recover")
+	decode := p.Fn("table", "Data", "Decode")
+	if fetch == nil || whole == nil || single == nil || rec == nil || decode == nil {
+		r.Undecided("-", "table anchors", "", "levelManager.fetch / table.Index.DataBlock / IndexEntry.DataHandle / recover / Data.Decode not found")
+		return
+	}
+	fns := append(compactors(c), rec)
+	isWhole := func(v ssa.Value) bool { return fieldIs(v, whole) }
+	isSingle := func(v ssa.Value) bool { return fieldIs(v, single) }
+	for _, f := range fns {
+		n := 0
+		for _, fc := range callsTo(p, f, fetch) {
+			n++
+			h := fc.Call.Args[len(fc.Call.Args)-1]
+			ok := p.dependsOn(h, isWhole) && !p.dependsOn(h, isSingle)
+			r.Check(ok, p.FnName(f), "fetches the whole table", p.Pos(instrPos(fc)), "handle = Index.DataBlock",
+				"only one data block of the table is read: the rest of its entries is missing from the merge / from the rebuilt filter and the recovered maximum version")
+		}
+		if f == rec {
+			for _, dc := range callsTo(p, f, decode) {
+				// the byte slice decoded: its length comes from Index.DataBlock.Length
+				arg := dc.Call.Args[1]
+				if ms, ok := arg.(*ssa.MakeSlice); ok {
+					n++
+					ok2 := p.dependsOn(ms.Len, isWhole) && !p.dependsOn(ms.Len, isSingle)
+					r.Check(ok2, p.FnName(f), "decodes the whole table", p.Pos(instrPos(dc)), "length = Index.DataBlock.Length",
+						"recovery decodes only part of the table's data blocks: the filter and the maximum version are rebuilt from a fraction of the entries")
+				}
+			}
+		}
+		if n == 0 {
+			r.Undecided(p.FnName(f), "table read", p.Pos(f.Pos()), "no fetch or decode of table data found")
+		}
+	}
+}
+
+func runKeySplit(c *Ctx, r *RuleRun) {
+	p := c.P
+	fk, ft, fw := p.Fn("types", "", "ParseKey"), p.Fn("types", "", "ParseTs"), p.Fn("types", "", "KeyWithTs")
+	if fk == nil || ft == nil || fw == nil {
+		r.Undecided("-", "types", "", "ParseKey/ParseTs/KeyWithTs not found")
+		return
+	}
+	splitters := func(f *ssa.Function) []string {
+		var out []string
+		eachInstr(f, func(ins ssa.Instruction) {
+			call, ok := ins.(*ssa.Call)
+			if !ok {
+				return
+			}
+			obj := p.ExtCallee(call)
+			if obj == nil || obj.Pkg() == nil || obj.Pkg().Path() != "strings" {
+				return
+			}
+			sep := ""
+			for _, a := range call.Call.Args {
+				if s, ok := constString(a); ok {
+					sep = s
+				}
+			}
+			out = append(out, obj.Name()+"("+sep+")")
+		})
+		sort.Strings(out)
+		return out
+	}
+	sk, st := splitters(fk), splitters(ft)
+	okK := len(sk) == 1 && sk[0] == "LastIndex(@)"
+	okT := len(st) == 1 && st[0] == "LastIndex(@)"
+	r.Check(okK, p.FnName(fk), "splits at the last @", p.Pos(fk.Pos()), "strings.LastIndex(key, \"@\")", fmt.Sprintf("ParseKey splits with %v: user keys containing '@' are cut at the wrong place", sk))
+	r.Check(okT, p.FnName(ft), "splits at the last @", p.Pos(ft.Pos()), "strings.LastIndex(key, \"@\")", fmt.Sprintf("ParseTs splits with %v while ParseKey uses %v: for user keys containing '@' every version parses to the same timestamp and versions are no longer ordered", st, sk))
+	// KeyWithTs appends "@" + decimal
+	good := false
+	eachInstr(fw, func(ins ssa.Instruction) {
+		if call, ok := ins.(*ssa.Call); ok {
+			if obj := p.ExtCallee(call); obj != nil && funcIs(obj, "strconv", "", "FormatUint") && len(call.Call.Args) == 2 {
+				if k, ok := constInt(call.Call.Args[1]); ok && k == 10 {
+					good = true
+				}
+			}
+		}
+	})
+	base := false
+	eachInstr(ft, func(ins ssa.Instruction) {
+		if call, ok := ins.(*ssa.Call); ok {
+			if obj := p.ExtCallee(call); obj != nil && funcIs(obj, "strconv", "", "ParseUint") && len(call.Call.Args) == 3 {
+				if k, ok := constInt(call.Call.Args[1]); ok && k == 10 {
+					base = true
+				}
+			}
+		}
+	})
+	r.Check(good && base, "types", "timestamp written and parsed in base 10", p.Pos(fw.Pos()), "FormatUint(ts, 10) / ParseUint(s, 10, 64)", "KeyWithTs and ParseTs disagree on the timestamp encoding")
+}
+
+func runIdxFresh(c *Ctx, r *RuleRun) {
+	p := c.P
+	idxField := p.Field("", "tableHandle", "levelIdx")
+	if idxField == nil {
+		r.Undecided("-", "tableHandle.levelIdx", "", "anchor not found")
+		return
+	}
+	seen := map[*ssa.Function]bool{}
+	for _, f := range p.Funcs {
+		if f.Pkg != p.SSAPkg[p.ModPath] {
+			continue
+		}
+		for _, st := range storesToField(f, idxField) {
+			if !inWriterFn(c, f) {
+				continue
+			}
+			// value = g(level) + 1
+			bo, ok := st.Val.(*ssa.BinOp)
+			k := int64(0)
+			if ok {
+				k, _ = constInt(bo.Y)
+			}
+			var callee *ssa.Function
+			if ok && bo.Op == token.ADD && k == 1 {
+				if cl, ok := bo.X.(*ssa.Call); ok && len(p.Callees(cl)) == 1 {
+					callee = p.Callees(cl)[0]
+				}
+			}
+			if callee == nil {
+				r.Viol(p.FnName(f), "new index = max in use + 1", p.Pos(instrPos(st)), "the index of a new table is not computed as (largest index in use) + 1")
+				continue
+			}
+			if seen[callee] {
+				r.Hold(p.FnName(f), "new index = max in use + 1", p.Pos(instrPos(st)), "uses "+p.FnName(callee))
+				continue
+			}
+			seen[callee] = true
+			r.Hold(p.FnName(f), "new index = max in use + 1", p.Pos(instrPos(st)), "uses "+p.FnName(callee))
+			dep := false
+			eachInstr(callee, func(ins ssa.Instruction) {
+				if ret, ok := ins.(*ssa.Return); ok && len(ret.Results) == 1 {
+					if p.dependsOn(retOperand(ret, 0), func(x ssa.Value) bool { return fieldIs(x, idxField) }) {
+						dep = true
+					}
+				}
+			})
+			r.Check(dep, p.FnName(callee), "largest index in use", p.Pos(callee.Pos()), "computed from the levelIdx of the handles in the level",
+				"the 'largest index in use' does not look at the indices of the tables in the level (e.g. it counts them): once indices have a gap a new table is renamed over a live one and its keys are lost")
+		}
+	}
+}
+
+// inWriterFn: f builds a table (calls table.Build)
+func inWriterFn(c *Ctx, f *ssa.Function) bool {
+	build := c.P.Fn("table", "", "Build")
+	return build != nil && len(callsTo(c.P, f, build)) > 0
+}
+
+func runCmpRmOrder(c *Ctx, r *RuleRun) {
+	p := c.P
+	fetch := p.FnOr("", "levelManager", "fetch")
+	if fetch == nil {
+		r.Undecided("-", "levelManager.fetch", "", "anchor not found")
+		return
+	}
+	n := 0
+	for _, cf := range compactors(c) {
+		for _, fc := range callsTo(p, cf, fetch) {
+			if k, ok := constInt(fc.Call.Args[1]); !ok || k != 0 {
+				continue
+			}
+			var sel *ssa.Call
+			p.dependsOn(fc.Call.Args[2], func(x ssa.Value) bool {
+				if call, ok := x.(*ssa.Call); ok {
+					if g := call.Call.StaticCallee(); g != nil && p.InModule(g) && g.Signature.Recv() != nil && call.Parent() == cf {
+						sel = call
+						return true
+					}
+				}
+				return false
+			})
+			if sel == nil {
+				continue
+			}
+			for _, g := range p.Callees(sel) {
+				walk := map[string]bool{}
+				for h := range c.Locks().roleReach([]*ssa.Function{g}) {
+					eachInstr(h, func(ins ssa.Instruction) {
+						if cl, ok := ins.(*ssa.Call); ok {
+							if obj := p.ExtCallee(cl); obj != nil && obj.Pkg() != nil && obj.Pkg().Path() == "container/list" {
+								switch obj.Name() {
+								case "Front", "Back", "Next", "Prev":
+									walk[obj.Name()] = true
+								}
+							}
+						}
+					})
+				}
+				n++
+				ok := walk["Front"] && walk["Next"] && !walk["Back"] && !walk["Prev"]
+				r.Check(ok, p.FnName(g), "L0 inputs oldest first", p.Pos(g.Pos()), "selected with Front()/Next(): removal follows age order",
+					fmt.Sprintf("the L0 inputs are selected with %v, so they are unlinked and deleted newest first: after a crash between two removals an older L0 table survives above the merged output and answers lookups with stale values", keys(walk)))
+			}
+		}
+	}
+	if n == 0 {
+		r.Undecided("-", "L0 selection", "", "no L0 compaction found")
 	}
 }
